@@ -151,12 +151,20 @@ type TCall struct {
 	Args []TExpr
 }
 
+// TReturn ends the current subroutine: with an Action in the driven subroutine (the state the
+// state machine moves to), bare inside helper subroutines.
+type TReturn struct {
+	Action string
+	Paren  bool
+}
+
 func (TSet) tstmt()    {}
 func (TUnset) tstmt()  {}
 func (TLog) tstmt()    {}
 func (TIf) tstmt()     {}
 func (TSwitch) tstmt() {}
 func (TCall) tstmt()   {}
+func (TReturn) tstmt() {}
 
 // TSub is a helper subroutine with by-value parameters.
 type TSub struct {
@@ -194,6 +202,10 @@ type Env struct {
 	Trace      []TraceStep
 	Subs       map[string]*TSub
 	depth      int
+	// Returned is set by a return statement until the frame it belongs to is left; State is the
+	// action returned by the driven subroutine ("" = fell off the end).
+	Returned bool
+	State    string
 }
 
 // TraceStep is the reference state after one executed statement of the driven subroutine's frame.
@@ -491,7 +503,16 @@ func (e *Env) Exec(stmts []TStmt) bool {
 		if e.OutOfRange {
 			return false
 		}
+		if e.Returned {
+			return true
+		}
 		switch t := s.(type) {
+		case TReturn:
+			e.Returned = true
+			if e.depth == 0 {
+				e.State = t.Action
+			}
+			e.snapshot("return")
 		case TSet:
 			val := e.Eval(t.Val)
 			if t.Header {
@@ -596,6 +617,7 @@ func (e *Env) Exec(stmts []TStmt) bool {
 			e.Vars, e.Group = frame, map[int]TVal{}
 			e.depth++
 			ok := e.Exec(sub.Body)
+			e.Returned = false // a bare return only leaves the helper
 			e.depth--
 			e.Vars, e.Group = saved, savedG
 			if !ok {
@@ -724,6 +746,9 @@ func (g *TG) boolExpr(depth int) TExpr {
 			return g.lit(TB)
 		case 1:
 			t := []TType{TI, TI, TF, TT}[r.Intn(4)]
+			if _, ok := g.varOf(t); !ok {
+				t = TI // helper subroutines always have an INTEGER local; a literal on the left is a runtime error
+			}
 			return TCmp{Op: []string{"==", "!=", "<", ">", "<=", ">="}[r.Intn(6)], L: g.varOrLit(t, true), R: g.operand(t)}
 		case 2:
 			return TCmp{Op: []string{"==", "!="}[r.Intn(2)], L: g.strLeft(), R: g.strAtom()}
@@ -876,7 +901,7 @@ func (g *TG) genStmts(n, depth int) []TStmt {
 }
 
 func (e *Env) clone() *Env {
-	c := &Env{Vars: map[string]TVal{}, Hdrs: map[string]TVal{}, Group: map[int]TVal{}, Subs: e.Subs, depth: e.depth}
+	c := &Env{Vars: map[string]TVal{}, Hdrs: map[string]TVal{}, Group: map[int]TVal{}, Subs: e.Subs, depth: e.depth, Returned: e.Returned, State: e.State}
 	for k, v := range e.Vars {
 		c.Vars[k] = v
 	}
@@ -896,6 +921,9 @@ func (g *TG) branch(depth int) []TStmt {
 	g.env = saved.clone()
 	b := g.genStmts(1+g.R.Intn(3), depth-1)
 	g.env = saved
+	if g.R.Intn(8) == 0 {
+		b = append(b, g.returnStmt())
+	}
 	return b
 }
 
@@ -940,6 +968,16 @@ func (g *TG) switchStmtT(depth int) TStmt {
 		s.Cases = append(s.Cases, c)
 	}
 	return s
+}
+
+var tActions = []string{"lookup", "pass", "error", "restart", "upgrade"}
+
+func (g *TG) returnStmt() TStmt {
+	g.f("t-return")
+	if g.inSub {
+		return TReturn{}
+	}
+	return TReturn{Action: tActions[g.R.Intn(len(tActions))], Paren: g.R.Intn(4) != 0}
 }
 
 func (g *TG) callStmt() TStmt {
@@ -1023,6 +1061,9 @@ func TypedProgram(r *rand.Rand, n int) *TProgram {
 		g.env.Exec([]TStmt{h})
 	}
 	p.Body = g.genStmts(n, 2)
+	if r.Intn(2) == 0 {
+		p.Body = append(p.Body, g.returnStmt())
+	}
 	p.Features = g.feat
 	p.emit(g.G)
 	return p
@@ -1096,11 +1137,15 @@ func (p *TProgram) emit(g *G) {
 	}
 	emitStmts(g, p.Init)
 	emitStmts(g, p.Body)
-	emitStmt(g, TLog{Marker: "__end"})
+	if n := len(p.Body); n == 0 || !isReturn(p.Body[n-1]) {
+		emitStmt(g, TLog{Marker: "__end"})
+	}
 	g.t("}", "SubroutineDeclaration#end", true)
 	g.eol()
 	p.SubToks, p.Stmts = g.toks, g.ranges
 }
+
+func isReturn(s TStmt) bool { _, ok := s.(TReturn); return ok }
 
 func emitDeclare(g *G, l TVar) {
 	g.t("declare", "DeclareStatement#0", true)
@@ -1121,6 +1166,20 @@ func emitStmt(g *G, s TStmt) {
 	from := len(g.toks)
 	kind := ""
 	switch t := s.(type) {
+	case TReturn:
+		kind = "ReturnStatement"
+		g.t("return", "ReturnStatement#0", true)
+		switch {
+		case t.Action == "":
+		case t.Paren:
+			g.t("(", "ReturnStatement#1", true)
+			g.t(t.Action, "ReturnStatement#2", true)
+			g.t(")", "ReturnStatement#3", true)
+		default:
+			g.t(t.Action, "ReturnStatement#noparen", false)
+		}
+		g.t(";", "ReturnStatement#4", true)
+		g.eol()
 	case TSet:
 		kind = "SetStatement"
 		g.t("set", "SetStatement#0", true)
